@@ -9,6 +9,7 @@ fn main() {
         "chain" => engines::chain::run(&args),
         "pool" => engines::pool::run(&args),
         "rules" => engines::rules::run(&args),
+        "tx" => engines::tx::run(&args),
         "crash" => engines::crash::run(&args),
         "freeze" => engines::freeze::run(&args),
         "freeze-child" => engines::freeze::child(&args),
